@@ -20,6 +20,11 @@ func runMoreSuites(suite string, r *rand.Rand, res *Result, thorough bool) bool 
 		res.Rule = "random table layouts through the verif level manager (flushToL0 / checkAndCompact / recover / searchLowerBound): 1-5 user keys x 2-9 versions, block sizes 1..200 bytes, L0TargetNum 1-4, LevelRatio 1-3, watermark 0..maxTs+1; after every compaction every (key, ts) of the universe is looked up; non-trivial = the case compacts, recovers, uses one-entry blocks or a positive watermark"
 		runCases(s, levelsGen(r, scale(150, 2500), false), res)
 		runCases(s, levelsGen(r, scale(100, 2500), true), res)
+	case "db":
+		s := Suite{Name: "db", DriverSuite: "db", Exec: dbExec}
+		res.Rule = "random interleavings of up to 6 open transactions (Begin/Get/Set/Delete/Commit/Discard, misuse of finished handles, oversize values) over 3-8 adversarial keys on a real DB with tiny thresholds (memtable 60-2000 B, blocks 1-200 B, L0TargetNum 1-4, LevelRatio 1-4, ImmutableBuffer 0-3); the flusher is gated by the hooks and released by generator ops, so rotation, flush-add, compaction and flush-remove fall between the API calls the generator chooses; Close/Open cycles with a re-drawn configuration; every API result, every table content and every watermark value is replayed through the Lean model; non-trivial = concurrent transactions, discard, misuse or reopen"
+		runCases(s, dbGen(r, scale(40, 600), scale(120, 250), true), res)
+		runCases(s, dbGenManyTables(r, scale(4, 60)), res)
 	case "codec":
 		s := Suite{Name: "codec", DriverSuite: "codec", Exec: codecExec}
 		res.Rule = "encoders/decoders of data, index, footer, meta blocks (S2 removed), whole tables through table.Build and the recovery parser (complete and cut files), wal batches and their read-back at random cut lengths, concurrent encoders whose results are re-checked afterwards, key/value lengths around 2^16; non-trivial = every case (distinct inputs) carries at least one of these tags"
@@ -36,6 +41,8 @@ func moreSuiteByName(name string) (Suite, bool) {
 		return Suite{Name: "levels", DriverSuite: "levels", Exec: levelsExec}, true
 	case "codec":
 		return Suite{Name: "codec", DriverSuite: "codec", Exec: codecExec}, true
+	case "db":
+		return Suite{Name: "db", DriverSuite: "db", Exec: dbExec}, true
 	}
 	return Suite{}, false
 }
